@@ -54,6 +54,8 @@ def build(case, seen):
         return [float(g(x)) * fscale for g in gs]
     fscale = float(case.get("fscale", 1.0))
     f = FunctionCustom(fun, output_dim=case["nout"])
+    if case.get("nocache"):
+        f.deactivate_caching()      # public option: values are not kept, the point bookkeeping must not depend on it
     norm = np.inf if case["norm"] == "inf" else case["norm"]
     ref = np.array(case["reference"], dtype=float)
     kind = case["kind"]
@@ -282,7 +284,7 @@ def run(case):
     out.cls("norm=%s" % p, "nout=%d" % case["nout"], "reference=%s" % case["refmode"], "fscale=%g" % case.get("fscale", 1.0))
     if kind == "dw":
         out.cls("version=%d" % case["version"])
-    out.cls(drive.scale_class(case))
+    out.cls(drive.scale_class(case), "integrand-cache=%s" % ("off" if case.get("nocache") else "on"))
     out.info = dict(max_history_len=len(E), max_points=N[-1] if N else 0)
     return out
 
@@ -332,6 +334,7 @@ def _strategy(kind):
                 c["maxev"] = draw(st.integers(20, 250))
             c["triples"] = draw(st.lists(st.tuples(st.integers(0, 40), st.sampled_from([0, 1, 1, 2, 3]), st.integers(0, 40), st.sampled_from([0, 0, 1, 2, 3]),
                                                    st.integers(0, 40), st.sampled_from([0, 1, 2, 3, 4])).map(list), min_size=1, max_size=3))
+            c["nocache"] = draw(st.sampled_from([False, False, True]))
             return drive.apply_boxscale(c, sc)
         return s()
     return strat
